@@ -167,9 +167,11 @@ class EventletWorker(AsyncWorker):
             acceptors.append(acceptor)
             eventlet.sleep(0.0)
 
+        # heartbeat at least twice per timeout (the arbiter hands us timeout / 2)
+        interval = min(1.0, self.timeout or 1.0)
         while self.alive:
             self.notify()
-            eventlet.sleep(1.0)
+            eventlet.sleep(interval)
 
         self.notify()
         t = None
